@@ -184,8 +184,8 @@ def enc_el(enc, o: Opts):
 
 # ---- types / params / containers ------------------------------------------------------------------------------
 def enum_value_text(v):
-    if isinstance(v, bytes):
-        return v.decode("latin-1")
+    if isinstance(v, str):
+        return v
     return num(v)
 
 
